@@ -1,0 +1,33 @@
+//go:build verif
+
+package mp4
+
+// Verification hooks (build tag "verif" only): exported views of unexported helpers.
+
+// VerifIncrementIV exposes incrementIV.
+func VerifIncrementIV(inIV []byte, subsamplePatterns []SubSamplePattern, sampleLen int) []byte {
+	return incrementIV(inIV, subsamplePatterns, sampleLen)
+}
+
+// VerifCbcsCrypt exposes cbcsCrypt (enc = true encrypts, false decrypts).
+func VerifCbcsCrypt(enc bool, data, key, iv []byte, nrInCryptBlock, nrInSkipBlock int) error {
+	dir := dirDec
+	if enc {
+		dir = dirEnc
+	}
+	return cbcsCrypt(dir, data, key, iv, nrInCryptBlock, nrInSkipBlock)
+}
+
+// VerifDecoderKeys lists the registered box types of both decoder tables.
+func VerifDecoderKeys() (reader, sliceReader []string) {
+	for k := range decoders {
+		reader = append(reader, k)
+	}
+	for k := range decodersSR {
+		sliceReader = append(sliceReader, k)
+	}
+	return
+}
+
+// VerifTrunWriteOrderNr exposes the write order number of a trun.
+func VerifTrunWriteOrderNr(t *TrunBox) uint32 { return t.writeOrderNr }
